@@ -155,6 +155,14 @@ def run_case(case, seed):
             bad("C02/norms", f"pixel norms not preserved for g={g.tolist()}", g=g.tolist())
     if not np.array_equal(table[G.gkey(e)], A0):
         bad("C02/identity", "identity does not act trivially")
+    # integer-typed and half-precision data (identifier values are small: exactly representable)
+    for dt in (np.int32, np.float16):
+        for g in B[:: max(1, len(B) // 8)]:
+            got = np.asarray(geom.times_group_element(D, jnp.asarray(A1.astype(dt)), p, g)).astype(np.float64)
+            evals += 1
+            if not np.array_equal(got, ref_action(A1, p, g, D).astype(np.float64)):
+                bad(f"C02/dtype/{np.dtype(dt).name}", f"times_group_element on {np.dtype(dt).name} data != defining formula for g={g.tolist()}", g=g.tolist())
+                break
 
     # ---- (vi)+(vii) GeometricImage entry point: all flags, metadata
     if not (D == 1 and k > 0):
